@@ -3,7 +3,9 @@
 // destination - cyclic tables included - and every label-switched walk, TTL
 // 1..5). Stage R: each TLC behaviour is installed into real routing tables /
 // built as a real switch block and a real frame is sent; stage T: converged
-// meshes (C09's world), ping-pong between all ordered pairs. Every link
+// meshes (C09's world), ping-pong between all ordered pairs, repeated after
+// link churn and after ticks of the routers' periodic workers
+// (housekeeping.go). Every link
 // crossing is recorded (TTL, byte diff outside TTL / flow flags / switch
 // block) and judged by TLC (Forwarding_Trace).
 package main
@@ -233,7 +235,7 @@ func drain(ms *mesh.Mesh, max int) int {
 func main() { vf.Main("C10", "model_checking", run) }
 
 func run(c *vf.Ctx) {
-	c.Rule("M: TLC exhaustive: complete graph on 4 routers, all 81 next-hop functions towards an absent destination (cyclic and inconsistent ones included) x 4 sources x TTL 1..5, and all label-switched walks of 2..4 routers x TTL 1..5. R: every TLC behaviour realised on real routers (routes installed with AddRoute, switch blocks built with BuildBlocks, real frames sent with the chosen TTL). T: converged meshes (5..12 routers, 5 families), ping-pong between all ordered pairs. distinct = distinct (behaviour / mesh, pair)")
+	c.Rule("M: TLC exhaustive: complete graph on 4 routers, all 81 next-hop functions towards an absent destination (cyclic and inconsistent ones included) x 4 sources x TTL 1..5, and all label-switched walks of 2..4 routers x TTL 1..5. R: every TLC behaviour realised on real routers (routes installed with AddRoute, switch blocks built with BuildBlocks, real frames sent with the chosen TTL). T: converged meshes (5..12 routers, 5 families), ping-pong between all ordered pairs, again after link churn and again after the routers' periodic workers (routing table / connection state / ping handler / session cleaners) ticked on some or all routers. distinct = distinct (behaviour / mesh, pair)")
 	c.Assume("virtual links deliver synchronously, one frame at a time (queue drops under load are outside the property)", "frame identity on its way = type, nonce, sequence field, source and destination bytes")
 
 	mc, err := c.TLC("Forwarding", "Forwarding_MC.cfg", vf.TLCOpts{Workers: 8, Timeout: 10 * time.Minute})
@@ -449,8 +451,9 @@ func run(c *vf.Ctx) {
 		sizes = []int{5, 7, 9, 12, 16}
 	}
 	bt := &batch{}
-	for _, f := range fams {
-		for _, n := range sizes {
+	hkSame, hkChanged := 0, 0
+	for fi, f := range fams {
+		for si, n := range sizes {
 			raw := f.gen(n)
 			used := map[int]map[int]bool{}
 			var edges []mesh.Edge
@@ -474,7 +477,16 @@ func run(c *vf.Ctx) {
 				}
 				edges = append(edges, mesh.Edge{A: e[0], B: e[1], LA: lab[0], LB: lab[1]})
 			}
-			ms, err := mesh.New(n, edges, mesh.Opts{})
+			// every other mesh spans continents: a router files the routers of its own continent by region (/16) and those
+			// of every other continent by continent (/12), so its table holds whole groups of routes under one routing
+			// prefix - what the per-prefix logic of the table (limits, cleaning) works on. Node ids no longer follow the
+			// order of the addresses there.
+			var ids []*m.Address
+			var conts []string
+			if (fi+si+int(c.Seed))%2 == 1 {
+				ids, conts = mixedIdentities(rng, n)
+			}
+			ms, err := mesh.New(n, edges, mesh.Opts{IDs: ids})
 			if err != nil {
 				c.Fatal("mesh: %v", err)
 			}
@@ -517,15 +529,19 @@ func run(c *vf.Ctx) {
 				}
 				return false
 			}
-			pingAll := func(kind string, churned bool) {
+			// pingAll asks every ordered pair for which the mesh is claimed to be converged (claim == nil: all of them) and
+			// returns the pairs it asked.
+			pingAll := func(kind string, claim func(a, bb int) bool) map[[2]int]bool {
+				claimed := map[[2]int]bool{}
 				for a := 1; a <= n; a++ {
 					for bb := 1; bb <= n; bb++ {
 						if a == bb {
 							continue
 						}
-						if churned && !(liveRoute(a, bb) && liveRoute(bb, a)) {
+						if claim != nil && !claim(a, bb) {
 							continue // not converged for this pair after the change: nothing is claimed
 						}
+						claimed[[2]int{a, bb}] = true
 						A, B := ms.Node(a), ms.Node(bb)
 						before := len(rec.events)
 						notify, pingID, err := A.Rt.PingPong.Send(B.ID.IP, false, 0)
@@ -576,8 +592,46 @@ func run(c *vf.Ctx) {
 						c.Distinct(fmt.Sprintf("%s|%d|%d|%d", kind, n, a, bb))
 					}
 				}
+				return claimed
 			}
-			pingAll(f.name, false)
+			byTables := func(a, bb int) bool { return liveRoute(a, bb) && liveRoute(bb, a) }
+			// ---- housekeeping: the routers' periodic workers (routing table cleaner, connection state / ping handler /
+			// session cleaners) never run in this world; here some idle time passes and they tick on some or all routers
+			// between two rounds of requests (housekeeping.go). It closes the run recorded so far and records a run of its own.
+			hkPairs, hkRuns := 0, 0
+			keep := func(asked map[[2]int]bool, extra map[string]any) map[[2]int]bool {
+				for k := 0; k < c.Pick(1, 3); k++ {
+					d := map[string]any{"kind": "converged-" + f.name, "n": n, "edges": raw, "before_housekeeping": hkRuns}
+					for kk, v := range extra {
+						d[kk] = v
+					}
+					bt.add(rec, d)
+					rec = newRecorder(ms)
+					evs, hk, unchanged := housekeeping(c, rng, ms)
+					rec.events = append(rec.events, evs...)
+					claim := byTables
+					if !unchanged {
+						hkChanged++
+					}
+					if unchanged {
+						hkSame++
+						// no route was removed anywhere: the mesh is as converged as it was for the pairs asked before
+						prev := asked
+						claim = func(a, bb int) bool { return prev[[2]int{a, bb}] }
+					}
+					before := pairs
+					asked = pingAll(f.name+"-after-housekeeping", claim)
+					hkPairs += pairs - before
+					hkRuns++
+					hk["pairs_asked_again"] = pairs - before
+					bt.add(rec, map[string]any{"kind": "converged-" + f.name + "-after-housekeeping", "n": n, "edges": raw, "housekeeping": hk,
+						"note": "the routers' periodic workers ticked between two rounds of requests; the pairs asked here were all asked (and claimed converged) before the ticks"})
+					rec = newRecorder(ms)
+				}
+				return asked
+			}
+			asked := pingAll(f.name, nil)
+			keep(asked, nil)
 			// ---- the topology changes while the routers keep running (what they learnt, cached or remembered while
 			// the first requests were routed is still there): a link comes up, another goes down, everybody announces
 			// again; the pairs whose tables have converged on the new topology are asked again
@@ -604,7 +658,9 @@ func run(c *vf.Ctx) {
 				}
 				cd := cands[rng.Intn(len(cands))]
 				a, x, b := cd[0], cd[1], cd[2]
-				bt.add(rec, map[string]any{"kind": "converged-" + f.name, "n": n, "edges": raw, "before_churn_round": round})
+				if len(rec.events) > 1 {
+					bt.add(rec, map[string]any{"kind": "converged-" + f.name, "n": n, "edges": raw, "before_churn_round": round})
+				}
 				ms.W.OnSend = nil
 				la, lb := m.SwitchLabel(20001+rng.Intn(20000)), m.SwitchLabel(20001+rng.Intn(20000))
 				for ms.Node(a).Peer.GetLinkByLabel(la) != nil {
@@ -640,20 +696,31 @@ func run(c *vf.Ctx) {
 				}
 				rec = newRecorder(ms)
 				before := pairs
-				pingAll(f.name+"-after-churn", true)
+				asked = pingAll(f.name+"-after-churn", byTables)
 				churnPairs += pairs - before
+				if c.Thorough() || rng.Intn(2) == 0 {
+					keep(asked, map[string]any{"after_churn_round": round})
+				}
 			}
 			c.Extra(fmt.Sprintf("churn_pairs_%s_%d", f.name, n), churnPairs)
+			c.Extra(fmt.Sprintf("housekeeping_pairs_%s_%d", f.name, n), hkPairs)
+			if conts != nil {
+				c.Extra(fmt.Sprintf("continents_%s_%d", f.name, n), conts)
+			}
 			if len(ms.W.Panics) > 0 {
 				c.Violation(vf.Key("panic", f.name), fmt.Sprintf("worker panic in converged %s of %d: %v", f.name, n, ms.W.Panics[0]), nil, nil)
 			}
-			bt.add(rec, map[string]any{"kind": "converged-" + f.name, "n": n, "edges": raw})
-			c.Logf("T converged %s n=%d: %d pairs, %d events", f.name, n, pairs, len(rec.events))
+			if len(rec.events) > 1 {
+				bt.add(rec, map[string]any{"kind": "converged-" + f.name, "n": n, "edges": raw})
+			}
+			c.Logf("T converged %s n=%d: %d pairs (%d after housekeeping, %d after churn), %d events", f.name, n, pairs, hkPairs, churnPairs, len(rec.events))
 			if f.name == "ring" && n == sizes[0] {
 				c.Sample(map[string]any{"kind": "converged mesh ping-pong", "family": f.name, "n": n, "pairs": pairs, "first_events": rec.events[:min(8, len(rec.events))]})
 			}
 		}
 	}
+	c.Extra("housekeeping_runs", map[string]int{"no_route_removed": hkSame, "routes_removed_claim_by_tables": hkChanged})
+	c.Logf("T housekeeping: %d runs in which the tables kept their routes (every pair asked before is asked again), %d in which routes were removed (pairs claimed by the tables)", hkSame, hkChanged)
 	bt.validate(c, "converged")
 
 	// ---- the same rules over real links (reader, writer, send queues), with bursts of frames from either end
